@@ -96,7 +96,7 @@ claim('C07', 'kani+verus',
       'Every one of the 209 public instruction methods of dora_asm::x64::AssemblerX64 has a contract row (225 rows): operands range over all 16 GPR/XMM registers, all five Address constructors with any base/index/scale/i32 displacement, any i64 immediate, every condition; '
       'postcondition: the emitted bytes decode, under a reference decoder written from the SDM and validated against llvm-mc, to exactly the requested mnemonic, operand size and operands, with nothing left over; an operand the assembler cannot encode must be refused by a panic. '
       'CBMC decides each row for all operands at once; counterexamples are replayed on the real crate. Jumps to labels (jmp/jcc/jmp_near/jcc_near, resolve_jumps) are additionally proved in Verus for ALL distances, short and near, forward and backward. '
-      'Quick tier: 155 rows (< 2.5 min each) + the Verus unit; the 39 slow address rows, the bounded label rows and the executed-only jump-distance sweeps are EXECUTED on the real crate with 20 000 seeded operand draws each (sampled, not counted as proved); thorough tier: all 218 Kani rows.',
+      'Quick tier (≈ 6 min): every 2nd of the 155 cheap rows is proved (which half rotates with VERIF_SEED) + the Verus unit; all other rows, the 39 slow address rows, the bounded label rows and the executed-only jump-distance sweeps are EXECUTED on the real crate with 20 000 seeded operand draws each (sampled, not counted as proved); thorough tier (≈ 90 min): all 226 Kani rows.',
       'Trusted: Kani/CBMC, Verus/Z3, the reference decoder + request table (oracle; cross-checked against llvm-mc on ~15 000 samples, not proved), debug-build arithmetic. Open known finding: testl_ri narrows to the 8-bit form for 0..=255. '
       'Not covered: the Dora-side assembler (pkgs/boots/assembler/x64.dora), callers in masm/x64.rs.',
       'DESIGN.md §4 C07, §9')
@@ -106,7 +106,7 @@ claim('C08', 'kani+verus',
       'Every one of the 286 public instruction methods of dora_asm::arm64::AssemblerArm64 has a contract row (312 rows) and the private branch class encoders / range predicates have 10 more (scratch copy of the crate with the rows appended as a child module): '
       'operands range over x0..x30, zr, sp, v0..v31, any u32/i32/u64/i64 immediate, every condition/shift/extend; postcondition: the emitted word decodes, under a reference decoder written from the Arm ARM and validated against llvm-mc, to exactly the request - so an operand that cannot be encoded must be refused, a silently truncated field is a violation. '
       'Branches to labels (b, b.cond, cbz/cbnz, tbz/tbnz, adr; resolve_jumps incl. the out-of-range fallbacks) are proved in Verus for ALL distances over the class-encoder contracts. Six genuine defects were found and repaired (fix: commits). '
-      'Quick tier: 266 rows + 10 private rows + the Verus unit; the bounded label rows and the 11 slow multi-instruction helpers are EXECUTED on the real crate with seeded operands (sampled, not counted as proved) and proved in the thorough tier.',
+      'Quick tier (≈ 6 min): every 3rd of the 266 cheap rows (which third rotates with VERIF_SEED) + the 10 private rows + the Verus unit are proved; all other rows, the bounded label rows and the 11 slow multi-instruction helpers are EXECUTED on the real crate with seeded operands (sampled, not counted as proved); thorough tier (≈ 90 min): all 322 rows.',
       'Trusted: Kani/CBMC, Verus/Z3, the reference decoder + request table (oracle; 0 disagreements with llvm-mc on 3343 sampled words), debug-build arithmetic. '
       'Not covered: pkgs/boots/assembler/arm64.dora, callers in masm/arm64.rs. The 11 multi-instruction helper rows need 15-17 GB and 13-16 min each: thorough tier only (all hold).',
       'DESIGN.md §4 C08, §9')
